@@ -7,7 +7,10 @@
 //! the harness only projects real results into the vocabulary of the specs.
 
 mod util;
+mod plushy;
+mod proj;
 mod stack;
+mod vm;
 
 fn main() {
     let args: Vec<String> = std::env::args().skip(1).collect();
@@ -20,6 +23,13 @@ fn main() {
     let rc = match args[0].as_str() {
         "stack-replay" => stack::replay(rest),
         "stack-trace" => stack::trace(rest),
+        "plushy-replay" => plushy::replay(rest),
+        "plushy-trace" => plushy::trace(rest),
+        "vm-step-replay" => vm::step_replay(rest),
+        "vm-run-replay" => vm::run_replay(rest),
+        "vm-trace" => vm::trace(rest),
+        "vm-long" => vm::long_runs(rest),
+        "num-opens" => vm::num_opens_table(rest),
         other => {
             eprintln!("unknown subcommand {other}");
             2
